@@ -1,0 +1,39 @@
+//go:build verif
+
+// Contracts for the DynamoDB metastore (AWS SDK v2), read by /verif/gocv (comment-only; no code).
+package metastore
+
+// item layout: { Id, Created, KeyRecord: { Revoked?, Created, Key (standard base64, padded), ParentKeyMeta? { KeyId, Created } } }
+//@ wire (metastoreItem) @dynamodbav [C18:dynamodb-item-shape] ID:string:"Id" Created:int64:"Created" KeyRecord:*envelope:"KeyRecord"
+//@ wire (envelope) @dynamodbav [C18:dynamodb-key-record-shape] Revoked:bool:"Revoked,omitempty" Created:int64:"Created" EncryptedKey:string:"Key" ParentKeyMeta:*keyMeta:"ParentKeyMeta,omitempty"
+//@ wire (keyMeta) @dynamodbav [C18:dynamodb-key-meta-shape] ID:string:"KeyId" Created:int64:"Created"
+
+// assumed library contracts
+//@ extern base64.(*Encoding).EncodeToString
+//@   names enc, src
+//@   pure
+//@ extern base64.(*Encoding).DecodeString
+//@   names enc, s
+//@   ensures result == nil || fresh(result)
+//@ extern attributevalue.MarshalMap
+//@   names in
+//@ extern attributevalue.UnmarshalMap
+//@   names m, out
+//@   modifies dyn(out, *metastoreItem)
+//@ extern aws.String
+//@   names v
+//@   ensures result != nil && fresh(result) && *result == v
+//@ iface DynamoDBClient.PutItem
+//@   names ctx, params, optFns
+
+//@ func (*Metastore).Store
+//@   facet C18
+//@   opt no-frame
+//@   requires d != nil && d.svc != nil && ekr != nil
+//@   ensures [C18:key-stored-as-standard-padded-base64] ncalls(EncodeToString) == 1 && arg(EncodeToString, 1, enc) == base64.StdEncoding && arg(EncodeToString, 1, src) == ekr.EncryptedKey
+//@   ensures [C18:key-record-fields-copied] ncalls(MarshalMap) == 1 && (forall e *envelope :: e == *dyn(arg(MarshalMap, 1, in), **envelope) ==> e != nil && e.EncryptedKey == ret(EncodeToString, 1, 0) && e.Created == ekr.Created && e.Revoked == ekr.Revoked && (ekr.ParentKeyMeta == nil ==> e.ParentKeyMeta == nil) && (ekr.ParentKeyMeta != nil ==> e.ParentKeyMeta != nil && e.ParentKeyMeta.ID == ekr.ParentKeyMeta.ID && e.ParentKeyMeta.Created == ekr.ParentKeyMeta.Created))
+
+//@ func decodeItem
+//@   facet C18
+//@   opt no-frame
+//@   ensures [C18:key-read-as-standard-padded-base64] err == nil ==> ncalls(DecodeString) == 1 && arg(DecodeString, 1, enc) == base64.StdEncoding && result != nil && result.EncryptedKey == ret(DecodeString, 1, 0)
